@@ -22,17 +22,23 @@ def run(ctx):
             ops.append("sealed %s %s %s" % (r["path"], rng.choice(["password", "U2F", "-"]), " ".join(sh)))
     n_sealed = len(ops)
     nseq = 60 if ctx.quick() else 1500
+    # scripted first: the cluster trust file already lists this server's RSA CA key (and a peer's), not the Ed25519 one
+    right = "inj2 pass:" + c.hexs("password")
+    for pre in ["s", "fs", "sf", "e", "se", "f", "-"]:
+        for ed in (1, 0):
+            ops += ["reset2 %d %s" % (ed, pre), "inj2 pass:" + c.hexs("Password"), right, right, "req"]
     for _ in range(nseq):
-        ops.append("reset %d" % rng.choice([0, 1]))
+        pre = "-" if rng.random() < 0.4 else "".join(rng.sample("sef", rng.randint(1, 3)))
+        ops.append("reset2 %d %s" % (rng.choice([0, 1]), pre))
         for _ in range(rng.randint(1, 9)):
             k = rng.random()
             if k < 0.2:
                 ops.append("req")
             elif k < 0.45:
-                ops.append("inj " + rng.choice(["notls", "nochain", "noform"]))
+                ops.append("inj2 " + rng.choice(["notls", "nochain", "noform"]))
             else:
                 p = rng.choice(PASSES) if rng.random() < 0.75 else "password"
-                ops.append("inj pass:" + c.hexs(p))
+                ops.append("inj2 pass:" + c.hexs(p))
         ops.append("req")
     races = 3 if ctx.quick() else 60
     for _ in range(races):
@@ -59,10 +65,24 @@ def run(ctx):
     seq_ops = [o for o in ops[n_sealed:] if not o.startswith("race")]
     seq_impl = [a for o, a in zip(ops[n_sealed:], impl[n_sealed:]) if not o.startswith("race")]
     model = c.run_driver(ctx, "model", seq_ops)
+    # `served=` (do /public/sshca and the JWKS document carry every key that signs?) is observed on the
+    # implementation only and judged below; everything else is compared with the model
+    served = [([t for t in a.split() if t.startswith("served=")] or ["served=-"])[0][7:] for a in seq_impl]
+    seq_impl = [" ".join(t for t in a.split() if not t.startswith("served=")) for a in seq_impl]
     dis = c.diff_streams(ctx, "secretInjectorHandler/unsealCA/readyz vs KM.Seal", seq_ops, seq_impl, model)
-    unsealed_seqs = sum(1 for a in seq_impl if a.split()[0] == "200" and len(a.split()) == 6)
-    for o, a, b in zip(seq_ops, seq_impl, model):
-        f = a.split()
+    unsealed_seqs = sum(1 for a in seq_impl if a.split()[0] == "200" and len(a.split()) >= 6)
+    cur_reset = ""
+    for o, a, b, sv in zip(seq_ops, seq_impl, model, served):
+        f = a.split()[:6]
+        if o.startswith("reset"):
+            cur_reset = o
+        if sv == "0":
+            hist["served:missing"] += 1
+            c.add_violation(ctx, "published-misses-signing-key:" + cur_reset,
+                            "after %r ... %r the server signs with a key that /public/sshca or the JWKS document does not carry (%s)" % (cur_reset, o, a),
+                            {"ops": [cur_reset, o], "impl": a})
+        elif sv == "1":
+            hist["served:all-signing-keys"] += 1
         if o.startswith("inj") and len(f) == 6:
             hist["inject:" + f[0]] += 1
             # judge: wrong passphrase must never unseal; ready signals never exceed one
@@ -81,7 +101,7 @@ def run(ctx):
                                 {"op": o, "impl": a})
     ctx.coverage.update({
         "evaluations": len(ops), "distinct_nontrivial": len(set(ops[:n_sealed])) + unsealed_seqs,
-        "rule": "every registered handler (route table regenerated from main()) served with Signer=nil under recover() for generated request shapes incl. valid pre-minted sessions; random injection sequences (no TLS / no verified chain / missing field / 10 passphrases incl. near misses) with readiness and a guarded route observed after each step, compared step by step with KM.Seal; concurrent injection+request races; non-trivial = distinct sealed probes + sequences that unsealed",
+        "rule": "every registered handler (route table regenerated from main()) served with Signer=nil under recover() for generated request shapes incl. valid pre-minted sessions; random injection sequences from empty and pre-loaded keymaster_public_keys lists (no TLS / no verified chain / missing field / 10 passphrases incl. near misses) with readiness and a guarded route observed after each step, compared step by step with KM.Seal, /public/sshca and JWKS read back after every step; concurrent injection+request races; non-trivial = distinct sealed probes + sequences that unsealed",
         "routes_probed_sealed": len(routes), "outcome_histogram": dict(hist),
         "seal_facts": {k: v for k, v in facts.get("c09", {}).items() if k != "routes"},
         "samples": [{"op": o, "impl": a} for o, a in list(zip(ops, impl))[:3] + list(zip(ops, impl))[n_sealed:n_sealed + 6]],
